@@ -143,7 +143,18 @@ Print Assumptions c05_encodings_same_stream.
    any other files, for every rows_at_a_time and worker count - are the same for the three
    encodings.  What is NOT covered: the mapping of a query file (no model consumes the
    row stream of a query; C07/C01 start from the loaded matrix), X versus a layer, dtypes
-   and HDF5 chunk layout (checked by the tie only). *)
+   and HDF5 chunk layout (checked by the tie only).
+   WHAT THIS IS (audit 3, item 13): a congruence, by construction of the model.  Once
+   c05_encodings_same_stream has shown that the three iterators deliver the same rows d,
+   this statement follows by `rewrite` alone and re-proves with ARBITRARY functions in
+   place of Stats.stats_of_rows and Stats.precompute: it says nothing about the statistics
+   code.  Its content is (i) c05_encodings_same_stream and (ii) the modelling decision that
+   the precompute reads a file ONLY through its row stream, and that decision is in the
+   tie, not in this theorem: harness/props/c09.py writes each reference file in an encoding
+   drawn from dense / csr / csc and compares the real precompute with Stats.precompute,
+   which sees the row stream only; harness/props/c05.py reduces this clause to the identity
+   of the row blocks the iterator delivers (stated in its ctx.assumptions).  Kept as the
+   explicit link between C05 and C09, labelled as what it is. *)
 Theorem c05_stats_same_for_all_encodings : forall (d : dense) mr mc nr nc c1 c2 c3 E L Lc b1 b2 b3,
   length d = nr /\
   wf_csr mr nr nc /\ no_dup_minor mr /\ dense_of mr nr nc = d /\
